@@ -232,12 +232,28 @@ def index_axioms(V, x, idxs):
     return out
 
 
+def index_in_axioms(V, x, lo, hi, idxs):
+    """[SPEC-BUILTIN] list.index(x, start, stop) over normalised integer bounds lo, hi: the LEAST index i with
+    lo <= i < hi and 0 <= i < len whose element is / == x; ValueError iff there is none."""
+    LO, HI = VInt(lo), VInt(hi)
+    r = bs.list_index_in(V, x, LO, HI)
+    c = bs.list_contains_in(V, x, LO, HI)
+    out = [z3.Implies(c, z3.And(r >= 0, r >= lo, r < hi, r < bs.list_len(V), pyeq(bs.list_get(V, VInt(r)), x)))]
+    for i in idxs:
+        out.append(z3.Implies(z3.And(i >= 0, i >= lo, i < hi, i < bs.list_len(V), pyeq(bs.list_get(V, VInt(i)), x)),
+                              z3.And(c, r <= i)))
+    return out
+
+
 class SequenceIndexLoop(LoopSpec):
-    """collections.abc.Sequence.index(value) - the one-argument form:
-           i = 0;  while True:  try: v = self[i]  except IndexError: break;  if v is value or v == value: return i;  i += 1
+    """collections.abc.Sequence.index(value, start=0, stop=None):
+           [negative start / stop are first made absolute with len(self) - one more load each]
+           i = start;  while stop is None or i < stop:  try: v = self[i]  except IndexError: break
+                                                        if v is value or v == value: return i;  i += 1
     Every `self[i]` RE-LOADS the collection.  With B the receiver's content in the resource as of the call (its own
     view at entry if the resource is absent), every reloaded view is == B (Python ==) as long as nobody writes, and
-           i >= 0,  and no element of B before position i is == value      (pointwise at the least-index witness)."""
+           i >= lo >= 0,  and no element of B at a position in [lo, i) is == value   (pointwise at the least-index witness)
+    where lo / hi are the values of the locals `start` / `stop` at the loop head (hi absent when stop is None)."""
     def parts(self, L, st):
         from pyvc.loops import param_name
         E = st.ghost["fn_entry"]
@@ -250,7 +266,31 @@ class SequenceIndexLoop(LoopSpec):
         B = z3.If(R0 == smt.VAbsent, E.sel("View", n), pos)
         return E, me, n, x, R0, B, info
 
+    def bounds(self, L, st):
+        """(lo, hi) - the loop-head values of the 3rd / 4th parameter (the loop does not assign them); hi is None
+        for `stop is None`; (0, None) is the one-argument form."""
+        from pyvc.loops import param_name
+        E = st.ghost["fn_entry"]
+        lo_v, hi_v = E.loc[param_name(L.fi, 2)], E.loc[param_name(L.fi, 3)]
+        hi = None if (isinstance(hi_v, Const) and hi_v.v is None) else as_int(hi_v)
+        lo = as_int(lo_v)
+        default = hi is None and isinstance(lo_v, Const) and lo_v.v == 0
+        return lo, hi, default
+
+    def witness(self, L, st, B, x):
+        lo, hi, default = self.bounds(L, st)
+        if default:
+            return bs.list_index(B, x)
+        if hi is None:
+            raise Unsupported("Sequence.index with a start but stop=None")
+        return bs.list_index_in(B, x, VInt(lo), VInt(hi))
+
     def prepare(self, L, st):
+        from pyvc.loops import param_name
+        for k in (2, 3):
+            nm = param_name(L.fi, k)
+            if nm in assigned_in_loop(L.node):
+                raise Unsupported("Sequence.index: the loop assigns " + nm)
         st.ghost["fn_entry"] = st.copy()
 
     def havoc(self, L, st):
@@ -265,11 +305,14 @@ class SequenceIndexLoop(LoopSpec):
     def invariant(self, L, st, vis):
         E, me, n, x, R0, B, info = self.parts(L, st)
         i = self.counter(L, st)
-        j0 = bs.list_index(B, x)
-        out = [("counter-nonnegative", i >= 0),
+        lo, hi, default = self.bounds(L, st)
+        j0 = self.witness(L, st, B, x)
+        out = [("counter-nonnegative", i >= 0), ("counter-from-start", i >= lo),
                ("absent-resource-leaves-the-view", z3.Implies(R0 == smt.VAbsent, st.sel("View", n) == E.sel("View", n))),
-               ("earlier-elements-differ", z3.Implies(z3.And(j0 >= 0, j0 < i, j0 < bs.list_len(B)),
-                                                      z3.Not(pyeq(bs.list_get(B, VInt(j0)), x))))]
+               ("earlier-elements-differ", z3.Implies(z3.And(j0 >= 0, j0 >= lo, j0 < i, j0 < bs.list_len(B)),
+                                                      z3.Not(pyeq(bs.list_get(B, VInt(j0)), x)))),
+               # once an element has been fetched the in-memory view is the backend content as of the call
+               ("view-current-after-the-first-fetch", z3.Or(i == lo, pyeq(st.sel("View", n), B)))]
         # a read loop: every iteration reloads the whole tree, so nothing ties the views to their entry values;
         # what stays is what no load touches
         out.append(("alloc-monotone", st.g["Alloc"] >= E.g["Alloc"]))
@@ -297,24 +340,41 @@ class SequenceIndexLoop(LoopSpec):
         read terms over both forms occur (the congruence instances are generated per occurring term)."""
         E, me, n, x, R0, B, info = self.parts(L, st)
         i = self.counter(L, st)
+        lo, hi, default = self.bounds(L, st)
         pos = R0 if info["is_root"] else bs.sub_of(R0, VRef(n))
         out = []
         for t in (pos, E.sel("View", n)):
-            out.append(z3.Implies(B == t, z3.And(bs.list_len(B) == bs.list_len(t), bs.list_get(B, VInt(i)) == bs.list_get(t, VInt(i)),
-                                                  bs.list_index(B, x) == bs.list_index(t, x),
-                                                  bs.list_contains(B, x) == bs.list_contains(t, x))))
+            eqs = [bs.list_len(B) == bs.list_len(t), bs.list_get(B, VInt(i)) == bs.list_get(t, VInt(i))]
+            if default:
+                eqs += [bs.list_index(B, x) == bs.list_index(t, x), bs.list_contains(B, x) == bs.list_contains(t, x)]
+            else:
+                LO, HI = VInt(lo), VInt(hi)
+                eqs += [bs.list_index_in(B, x, LO, HI) == bs.list_index_in(t, x, LO, HI),
+                        bs.list_contains_in(B, x, LO, HI) == bs.list_contains_in(t, x, LO, HI)]
+            out.append(z3.Implies(B == t, z3.And(*eqs)))
         out.append(z3.If(R0 == smt.VAbsent, B == E.sel("View", n), B == pos))
         return out
+
+    def spec_axioms(self, L, st, B, x, idxs, all_idxs=True):
+        lo, hi, default = self.bounds(L, st)
+        if default:
+            return index_axioms(B, x, idxs) + contains_axioms(B, x, idxs if all_idxs else [])
+        return index_in_axioms(B, x, lo, hi, idxs)
 
     def iteration_facts(self, L, st, i_unused):
         E, me, n, x, R0, B, info = self.parts(L, st)
         i = self.counter(L, st)
-        return index_axioms(B, x, [i]) + contains_axioms(B, x, [i]) + self.unfold_B(L, st)
+        return self.spec_axioms(L, st, B, x, [i]) + self.unfold_B(L, st)
 
     def at_exit(self, L, st):
         E, me, n, x, R0, B, info = self.parts(L, st)
         i = self.counter(L, st)
-        return index_axioms(B, x, [i]) + contains_axioms(B, x, []) + self.unfold_B(L, st)
+        return self.spec_axioms(L, st, B, x, [i], all_idxs=False) + self.unfold_B(L, st)
+
+
+def assigned_in_loop(node):
+    import ast as _ast
+    return {t.id for t in _ast.walk(node) if isinstance(t, _ast.Name) and isinstance(t.ctx, _ast.Store)}
 
 
 def register(eng):
